@@ -259,9 +259,15 @@ class Run:
         ds = [I.p.src.enum_variant("EventAction", k) for k in kinds]
         I.assume(z3.Or(*[ev == x for x in ds]))
         opts = dict(self.outputs_for(t))
+        omitted = None
+        kn, node = self.node_attr(t["nid"]) or (None, {})
+        declared = sorted(((node or {}).get("outputs") or {}).keys()) if t["kind"] == "Act" else []
+        if declared and getattr(self.cfg, "omit_outputs", False) and I.path.choose(2, "omit-output") == 1:
+            omitted = declared[-1]
+            opts.pop(omitted, None)
         opts.update({"to": self.model["steps"][0]["id"], "ecode": "e1", "message": "boom", "uses": "acts.core.irq", "key": "pushed"})
         before = self.snapshot()
-        self.current_action = dict(tid=t["tid"], nid=t["nid"], state=t["state"], kind=t["kind"], ev=ev)
+        self.current_action = dict(tid=t["tid"], nid=t["nid"], state=t["state"], kind=t["kind"], ev=ev, omitted=omitted)
         nmsg = len(W.messages)
         ntrace = len(W.trace)
         r = W.action(self.pid, t["tid"], ev, opts)
@@ -274,7 +280,7 @@ class Run:
         accepted = None if r is None else (r.d == 0)
         occ = [x["tid"] for x in ts if x["nid"] == t["nid"]].index(t["tid"])
         self.log.append(dict(target=t["nid"], target_state=t["state"], target_kind=t["kind"], action=kind, accepted=accepted, options=opts, occurrence=occ,
-                             dyn_index=self.dyn_index(t, ts)))
+                             dyn_index=self.dyn_index(t, ts), omitted=omitted))
         self.after_action(t, kind, accepted, before, nmsg, ntrace)
         self.current_action = None
         return True
@@ -987,6 +993,8 @@ class Run:
                 self.viol("accepted:%s-on-%s" % (kind, t["kind"]), "%s accepted on a %s task" % (kind, t["kind"]))
             elif kind in seven and terminal_before:
                 self.viol("accepted-on-terminal:action=%s" % kind, "%s accepted on act %s which is already %s" % (kind, t["nid"], t["state"]))
+            if (self.current_action or {}).get("omitted") and t["kind"] == "Act":
+                self.viol("accepted-without-declared-output:action=%s" % kind, "%s accepted on act %s although its declared output %s was not supplied" % (kind, t["nid"], self.current_action["omitted"]))
         elif accepted is False and kind in seven:
             changed = [tid for tid in after if before.get(tid) != after[tid]] + [tid for tid in before if tid not in after]
             if changed or len(W.messages) != nmsg:
@@ -1244,6 +1252,44 @@ class ReplayRun(Run):
             return
         self.err_cases = [dict(nid=e["target"], code=e["options"]["ecode"], accepted=bool(e.get("accepted"))) for e in errs]
         self.e_c06()
+
+    def r_c05(self, v, obs):
+        """The admission oracle on what the real engine answered: result of every scripted action against the snapshot before / after it."""
+        seven = ("Next", "Submit", "Skip", "Remove", "Abort", "Error", "Back")
+        entries = [e for e in self.log if e.get("action") or "answer" in e]
+        acts = [r for r in obs["results"] if r.get("op") == "action"]
+        snaps = obs["snapshots"]
+        hist = []
+        for j, (e, r) in enumerate(zip(entries, acts)):
+            if j + 1 >= len(snaps) or not snaps[j]["procs"]:
+                break
+            kind = e.get("action")
+            if kind in ("Back", "Cancel", "Push") and r.get("ok") and ("after-" + kind.lower()) not in hist:
+                hist.append("after-" + kind.lower())
+            if not kind:
+                continue
+            order = [x for x in ("after-back", "after-cancel", "after-push") if x in hist]
+            tag = ("+" + "+".join(order)) if order else ""
+            before = {t["tid"]: t for t in snaps[j]["procs"][0]["tasks"]}
+            after = {t["tid"]: t for t in snaps[j + 1]["procs"][0]["tasks"]} if snaps[j + 1]["procs"] else {}
+            t = before.get(r.get("tid"))
+            if t is None:
+                continue
+            if r.get("ok"):
+                if kind == "Push":
+                    if t["kind"] != "Step":
+                        self.found.append(("accepted:Push-on-%s%s" % (t["kind"], tag), ""))
+                elif t["kind"] != "Act":
+                    self.found.append(("accepted:%s-on-%s%s" % (kind, t["kind"], tag), ""))
+                elif kind in seven and t["state"] in TERMINAL:
+                    self.found.append(("accepted-on-terminal:action=%s%s" % (kind, tag), "%s was %s" % (t["nid"], t["state"])))
+                if e.get("omitted") and t["kind"] == "Act":
+                    self.found.append(("accepted-without-declared-output:action=%s%s" % (kind, tag), e["omitted"]))
+            elif kind in seven:
+                changed = [tid for tid in after if tid not in before or (before[tid]["state"], before[tid]["data"]) != (after[tid]["state"], after[tid]["data"])]
+                changed += [tid for tid in before if tid not in after]
+                if changed or snaps[j]["nmsg"] != snaps[j + 1]["nmsg"]:
+                    self.found.append(("rejected-but-changed:action=%s%s" % (kind, tag), "changed %s" % changed))
 
     def r_c02(self, v, obs):
         """The same lifecycle oracle on the state-write trace of the real engine (verif hook)."""
